@@ -322,6 +322,15 @@ def check_classical(case):
     req(abs(cv - wc) <= TOL_EXACT, f"XORGame.classical_value {cv!r} != max over +/-1 assignments {wc!r}", "classical!=bruteforce")
     cv2 = float(g.to_nonlocal_game().classical_value())
     req(abs(cv2 - wc) <= TOL_EXACT, f"to_nonlocal_game().classical_value {cv2!r} != max over +/-1 assignments {wc!r}", "converted-classical!=bruteforce")
+    # the same statement for the game built with reps = 2 (the 2-fold product game), small games only: the XOR object and
+    # its conversion both report the brute-force value of the reference product game
+    if prob.size <= 6 and min(prob.shape) <= 2:
+        g2 = _make(case, reps=2)
+        p2, v2 = H.product_game(prob, H.xor_pred(pred), 2)
+        c2_ref = H.general_classical_value(p2, v2)
+        cx2 = float(g2.classical_value())
+        _rec("classical: |toqito(reps=2) - brute force on the product game|", abs(cx2 - c2_ref))
+        req(abs(cx2 - c2_ref) <= TOL_EXACT, f"XORGame(reps=2).classical_value() = {cx2!r} != brute force on the reference 2-fold product game {c2_ref!r} (single game {wc!r})", "classical(reps=2)!=bruteforce")
 
 
 def check_nonsignaling(case):
